@@ -130,7 +130,7 @@ def scenario_strategy(repo, op, relation=None):
         "sibling": st.booleans(),
         "other_slot": st.booleans(),
         "needed": st.booleans() if repo == "vdb" else st.just(False),
-        "relation": (st.just(relation) if relation else st.sampled_from(["same", "other"])) if (repo == "vdb" and op == "replace")
+        "relation": (st.just(relation) if relation else st.sampled_from(["same", "other", "revbump"])) if (repo == "vdb" and op == "replace")
         else st.just("same"),
         "driver": st.sampled_from(["staged", "install_or_replace"]) if op != "uninstall" else st.just("staged"),
     }
@@ -144,6 +144,8 @@ def normalise(sc):
     ver_new = sc["ver"]
     if sc["op"] == "replace" and sc["relation"] == "other":
         ver_new = sc["ver2"] if sc["ver2"] != sc["ver"] else VERS[(VERS.index(sc["ver"]) + 1) % len(VERS)]
+    if sc["op"] == "replace" and sc["relation"] == "revbump":  # same version, other revision (foo-1 -> foo-1-r1)
+        ver_new = ver_old.rsplit("-r", 1)[0] if "-r" in ver_old else ver_old + "-r1"
     sc["_ver_old"], sc["_ver_new"] = ver_old, ver_new
     if ver_old != ver_new:
         sc["driver"] = "staged"  # install_or_replace only replaces the same cpv
@@ -255,8 +257,10 @@ class World:
     """directories of one scenario: src vdb + images (read-only), template of the target, live copy"""
 
     def __init__(self, top, sc):
-        from pkgcore.binpkg import repository as binrepo
         from pkgcore.vdb import ondisk
+
+        if sc["repo"] == "binpkg":
+            from pkgcore.binpkg import repository as binrepo
 
         self.sc = sc = normalise(sc)
         self.top = top
@@ -695,10 +699,21 @@ def run_point(ctx, world, obs_old, obs_new, events, k, mode, record=True):
         ctx.violation(f"{sc['repo']}:{sc['op']}:{v}@{sig}:{mode}", case,
                       f"after {mode} at event {k}/{len(events)} [{sig_full}] (child {res.status}"
                       f"{': ' + res.exc if res.exc else ''}): {detail}")
+    _persist(ctx)
     return v
 
 
-def run_scenario(ctx, sc, max_points=None, pick=None):
+def _persist(ctx):
+    """every judged injection point is worth keeping if the runner has to abandon this task (a point costs seconds under load)"""
+    if getattr(ctx, "_ckpt_path", None):
+        ctx.checkpoint()
+
+
+def run_scenario(ctx, sc, max_points=None, pick=None, floor=0):
+    """`floor`: number of (non-trivial) points judged even after the generation guard has passed (tiny task only:
+    a run must not end empty-handed because the machine is busy; the runner's hard cap still applies)"""
+    if ctx.out_of_time() and not floor:
+        return
     prep = prepare(ctx, sc)
     if prep is None:
         return
@@ -713,8 +728,10 @@ def run_scenario(ctx, sc, max_points=None, pick=None):
         pts = sorted(keep + rest[: max(0, max_points - len(keep))])
     ctx.count("scenarios")
     ctx.count("events", len(events))
-    for k, mode in pts:
-        if ctx.out_of_time():
+    if floor:
+        pts.sort(key=lambda p: (p[0] == 1 and p[1] != "after", p))  # points with an intermediate on-disk state first
+    for i, (k, mode) in enumerate(pts):
+        if i >= floor and ctx.out_of_time():
             break
         run_point(ctx, world, obs_old, obs_new, events, k, mode)
     shutil.rmtree(world.top, ignore_errors=True)
@@ -728,9 +745,26 @@ N_SCEN = {
 }
 
 
+_TINY_PKG = {"slot": "0", "eapi": "8", "iuse": [], "use_extra": [], "use_mask": 0, "desc": "tiny", "depend": "", "rdepend": "",
+             "files": [0], "env_lines": 1}
+TINY = [  # fewest events / cheapest set-up: judged within the first seconds of a run, whatever the load
+    {"repo": "vdb", "op": "uninstall", "old": _TINY_PKG, "new": _TINY_PKG, "ver": "1", "ver2": "1", "sibling": False, "other_slot": False,
+     "needed": False, "relation": "same", "driver": "staged"},
+    {"repo": "binpkg", "op": "uninstall", "old": _TINY_PKG, "new": _TINY_PKG, "ver": "1", "ver2": "1", "sibling": False,
+     "other_slot": False, "needed": False, "relation": "same", "driver": "staged"},
+]
+
+
+CORE_REVBUMP = {"repo": "vdb", "op": "replace", "old": _TINY_PKG, "new": dict(_TINY_PKG, desc="bumped", files=[1]), "ver": "1.2",
+                "ver2": "1.2", "sibling": True, "other_slot": False, "needed": False, "relation": "revbump", "driver": "staged"}
+
+
 def plan(tier, seed):
     tasks = []
     only = [x for x in os.environ.get("VF_C29_ONLY", "").split(",") if x]  # development aid: "vdb:install,binpkg:replace"
+    if not only:
+        tasks.append({"task": "tiny"})
+        tasks.append({"task": "core"})
     # cheap combinations first, so that a run under load has covered every repo kind before the budget guard hits
     for repo, op in sorted(COMBOS, key=lambda c: (c[0] != "binpkg", ["uninstall", "install", "replace"].index(c[1]))):
         if only and f"{repo}:{op}" not in only:
@@ -753,7 +787,7 @@ def warm_up(ctx, repo):
     if repo in _WARM:
         return
     _WARM.add(repo)
-    for op in ("install", "replace", "uninstall"):
+    for op in ("replace",):  # add_data + both finalize paths: loads everything install and uninstall need as well
         sc = {"repo": repo, "op": op, "old": WARM, "new": WARM, "ver": "1", "ver2": "1.2", "sibling": False, "other_slot": False,
               "needed": repo == "vdb", "relation": "same", "driver": "staged"}
         w = World(ctx.fresh_dir("warm"), sc)
@@ -766,24 +800,37 @@ def warm_up(ctx, repo):
         shutil.rmtree(w.top, ignore_errors=True)
 
 
-def run_task(ctx, task, repo, op, n, part):
+def run_task(ctx, task, repo=None, op=None, n=0, part=0):
     import random
 
+    if task == "tiny":
+        # no warm-up: the few children pay for their own lazy imports, the first point is judged at once
+        pick = random.Random(ctx.seed)
+        run_scenario(ctx, TINY[0], 8, pick, floor=3)
+        run_scenario(ctx, TINY[1], 8, pick)
+        return
+    if ctx.out_of_time():
+        return
+    if task == "core":
+        # fixed family visited by every run: vdb replace by a revision-only bump (entry names differ, version equal),
+        # all rename/rmdir/utime points, a few of the bulk ones
+        warm_up(ctx, "vdb")
+        run_scenario(ctx, dict(CORE_REVBUMP), 16, random.Random(ctx.seed + 1))
+        return
     warm_up(ctx, repo)
 
     pick = random.Random(ctx.seed * 7919 + part * 101 + COMBOS.index((repo, op)))
     limit = None
     if ctx.tier == "quick" and repo == "vdb":
         limit = 30
-    relation = ("same", "other")[part % 2] if (repo, op) == ("vdb", "replace") else None
+    relation = ("same", "other", "revbump")[part % 3] if (repo, op) == ("vdb", "replace") else None
     core.hyp_run(ctx, scenario_strategy(repo, op, relation), lambda sc: run_scenario(ctx, sc, limit, pick), n, chunk=n,
                  seed_salt=part * 17 + COMBOS.index((repo, op)))
 
 
 def replay(ctx, case):
     sc = case["scenario"]
-    warm_up(ctx, sc["repo"])
-    prep = prepare(ctx, sc)
+    prep = prepare(ctx, sc)  # no warm-up: a replay is one injection
     if prep is None:
         return
     world, obs_old, obs_new, events = prep
